@@ -151,5 +151,8 @@ class BaseDB(object):
             usernames = list(self.db.keys())
         finally:
             self.lock.release()
-        usernames = [u for u in usernames if not u.startswith("--Reserved--")]
+        # an on-disk database returns the keys as bytes on Python 3
+        usernames = [u for u in usernames
+                     if not u.startswith(b"--Reserved--" if isinstance(u, bytes)
+                                         else "--Reserved--")]
         return usernames
